@@ -44,6 +44,16 @@ CHECKS = {
              text="Decides that GC keeps the latest version at or below the watermark (rposition predicate class, exclusive drain of exactly that index) and that the automatic watermark is the min start version of active transactions.", ref="§5 C08"),
  "C09": dict(tech="dominance / must-pass obligations over the MIR of commit/abort, predicate evaluation of the conflict test, per-variant read-version table from the discriminant switch",
              text="Decides the per-call obligations of first-committer-wins (status gate, strict conflict predicate on both write sets, strictly increasing version on every success, terminal statuses) and the read version per isolation level. Interleaving enumeration is not needed for these (commit takes &mut self) and not claimed beyond them.", ref="§5 C09"),
+ "C02": dict(tech="T-PAIR maintenance matrix (call-graph reachability from each kill mutator to index_remove), forward taint from the index-predicate position to a removal from the residual list, shared frozen-tier effect rule",
+             text="Decides that every way a node leaves an indexed (label, property, value) removes it from the index, that index-derived predicates remain in the residual filter, and (with C06) the tier clause. Equivalence of the two planners / parallel filter is not decided.", ref="§5 C02"),
+ "C10": dict(tech="HIR match-arm facts of the Ord / Hash / rank impls (diagonal and cross-arm coverage, float primitive per arm, tag literals) plus impl-kind facts (derived vs manual)",
+             text="Decides comparator-law lints: one float primitive per comparator (fixed), diagonal and same-bucket cross coverage, Hash exhaustive with distinct tags, rank exhaustive, and the Eq/Ord/Hash impl-kind disagreement (one known finding). Transitivity over values is not decided.", ref="§5 C10"),
+ "C11": dict(tech="T-PAIR matrix on the constraint index, order of lookup vs writes in set_node_property, use-def check for discarded Results of constraint-checking writes in the executor",
+             text="Decides that each way a node gives up a constrained value releases it, that the check precedes the writes, and that write operators do not swallow the violation.", ref="§5 C11"),
+ "C28": dict(tech="T-PAIR staleness matrix over edge/property mutators, field-effect check of the stale fallback, accessor inventory of planner-side users",
+             text="Decides completeness of staleness marking and measure propagation over the mutator table and that rewrites see only usable entries. Encodings and roll-up arithmetic are not decided.", ref="§5 C28"),
+ "C29": dict(tech="T-PAIR matrix on the vector index, field-read effect of the declared metric, sibling liveness-validation rule between index-consuming operators",
+             text="Decides which mutators keep the vector index current (none remove: five known findings), whether the declared metric is used at all (known finding) and that the consumer validates hits (fixed). Ranking and recall are not decided.", ref="§5 C29"),
 }
 
 NA = {
